@@ -65,7 +65,7 @@ class ClassBuilder:
 
   def any_type(self, allow_struct=True):
     d = self.draw
-    if allow_struct and self.opts["structs"] and d(st.integers(0, 4)) == 0:
+    if allow_struct and self.opts["structs"] is True and d(st.integers(0, 4)) == 0:
       return small_struct(d)
     return ["b", W(d, self.opts)]
 
@@ -430,6 +430,8 @@ class ClassBuilder:
     # inputs
     for _ in range(d(st.integers(1, 3))):
       n = self.fresh("in"); t = self.any_type()
+      if o["structs"] == "top_in_only" and is_top and d(st.integers(0, 1)) == 0:
+        t = small_struct(d)                        # struct types only on top-level input ports
       self.ports.append([n, "in", t]); self.avail.append((mkref(n), t))
     if o["reset"] and d(st.integers(0, 3)) == 0:
       self.avail.append((mkref("reset"), ["b", 1]))
